@@ -273,6 +273,12 @@ class Registry:
         if con is None:
             raise Unsupported(f"no Accept contract for visitor class {vcls}")
         env: Dict[str, Any] = {"schema": member, "visitor": visitor}
+        # keyword-only parameters of every visit_* default to Nil (the opaque **kwargs is assumed not to
+        # carry `value` / `path` itself)
+        if ex.repo.is_subclass(vcls, "Validator") or vcls == "Substitutor":
+            env["value"] = T(M.NilV, "NilType")
+        if ex.repo.is_subclass(vcls, "Validator"):
+            env["path"] = T(M.NilV, "NilType")
         env.update(kws)
         env["kwargs"] = kwrest if kwrest is not None else Kw(ex.kw_empty)
         ex.opaque_calls.add(f"Accept[{con.qualname}]")
